@@ -149,6 +149,9 @@ def gen_valid(rng, sh):
         free = [i for i in INSTS if i not in sh.bb] or INSTS
         inst = rng.choice(free)
         bn, ins, outs = rng.choice(BBDEFS)
+        if sh.bb and rng.random() < 0.5:
+            bn, ins, outs = sh.bb[rng.choice(sorted(sh.bb))]      # a second instance of a definition already in use (one shared object)
+            ins, outs = list(ins), list(outs)
         conns = []
         used_bufs = set()
         for p in pick(rng, ins, rng.randint(0, len(ins))):
